@@ -194,6 +194,15 @@ pub fn run(p: &Params, rep: &mut Report) {
                 check_rust_string(rep, &mut m, &t, seed);
                 rep.eval(Some(&format!("f{}", t)));
             }
+            // a character beyond the SMT-LIB alphabet right after (and right before) every fragment
+            if p.shard == 0 {
+                for big in ['\u{30000}', '\u{3FFFF}', '\u{40000}', '\u{10FFFF}'] {
+                    for t in [format!("{}{}", a, big), format!("{}{}", big, a), format!("{}{}{}", a, big, a)] {
+                        check_rust_string(rep, &mut m, &t, seed);
+                        rep.eval(Some(&format!("g{}", t)));
+                    }
+                }
+            }
         }
     }
     // literal escapes that spell out-of-range values
